@@ -1684,3 +1684,140 @@ def rt_c04(tier="quick", first_only=False, count=None):
     if count is not None:
         count.append(n)
     return fails
+
+
+# --------------------------------------------------------------------------------------
+# contract B at run time for EVERY buildable class (zoo): round trips, same point, log-det vs autodiff, inverse log-det
+def rt_zoo_B(prop, first_only=False, count=None, only=None):
+    fails, n = [], 0
+    rng = np.random.default_rng(5)
+    for name, b, cd in bijection_zoo():
+        if only and only not in name:
+            continue
+        c = None if cd is None else jnp.asarray(rng.normal(size=(cd,)))
+        pts = [rng.normal(size=b.shape), rng.normal(size=b.shape) * 2.5, np.zeros(b.shape) + 0.25]
+        for x in pts:
+            n += 1
+            x = jnp.asarray(x)
+            try:
+                y = b.transform(x, c)
+                y2, ld = b.transform_and_log_det(x, c)
+            except NotImplementedError:
+                continue
+            has_inv = True
+            try:
+                xb = b.inverse(y, c)
+                xb2, ldi = b.inverse_and_log_det(y, c)
+            except NotImplementedError:
+                has_inv = False
+            case = dict(obj=name)
+            J = jax.jacobian(lambda v: b.transform(v, c).ravel())(x).reshape(int(np.prod(b.shape, dtype=int)), -1) if b.shape != () else jnp.reshape(jax.jacobian(lambda v: b.transform(v, c))(x), (1, 1))
+            sign, logabs = np.linalg.slogdet(np.asarray(J, float))
+            tol = 1e-5 if name == "BlockAutoregressiveNetwork" else 1e-7
+            if prop == "C01":
+                if not np.allclose(np.asarray(y2), np.asarray(y), rtol=1e-12, atol=1e-12):
+                    fails.append(dict(what=f"{name}: transform_and_log_det returns a different point than transform", case=case))
+                if has_inv:
+                    cond = max(1.0, float(np.linalg.cond(np.asarray(J, float)))) if np.all(np.isfinite(np.asarray(J))) else 1.0
+                    if not np.allclose(np.asarray(xb), np.asarray(x), rtol=tol * cond, atol=tol * cond):
+                        fails.append(dict(what=f"{name}: inverse(transform(x)) = {np.asarray(xb).ravel()[:4].tolist()} for x = {np.asarray(x).ravel()[:4].tolist()}", case=case))
+                    if not np.allclose(np.asarray(xb2), np.asarray(xb), rtol=1e-12, atol=1e-12):
+                        fails.append(dict(what=f"{name}: inverse_and_log_det returns a different point than inverse", case=case))
+                    fw = b.transform(xb, c)
+                    if not np.allclose(np.asarray(fw), np.asarray(y), rtol=tol * 10, atol=tol * 10):
+                        fails.append(dict(what=f"{name}: transform(inverse(y)) != y", case=case))
+            if prop == "C02":
+                if jnp.shape(ld) != ():
+                    fails.append(dict(what=f"{name}: forward log-det has shape {jnp.shape(ld)}", case=case))
+                elif np.isfinite(logabs) and not _close(ld, logabs, tol=1e-6):
+                    fails.append(dict(what=f"{name}: forward log-det {float(ld)!r} but log|det J| of transform by autodiff is {float(logabs)!r}", case=case))
+                if has_inv:
+                    _, ldf = b.transform_and_log_det(xb, c)
+                    if jnp.shape(ldi) != () or not _close(ldi, -ldf, tol=1e-6):
+                        fails.append(dict(what=f"{name}: inverse log-det {np.asarray(ldi).tolist()!r} but minus the forward log-det at the inverse image is {float(-ldf)!r}", case=case))
+            if first_only and fails:
+                return fails
+    if count is not None:
+        count.append(n)
+    return fails
+
+
+def rt_c08_definitions(first_only=False, count=None):
+    """combinators against a reference interpreter that implements their definitions over the children's own methods"""
+    import equinox as eqx
+    import flowjax.bijections as B
+
+    fails, n = [], 0
+    rng = np.random.default_rng(9)
+    a1 = B.Affine(jnp.array([0.3, -1.0, 0.5]), jnp.array([1.7, 0.5, 2.0]))
+    a2 = B.Chain([B.Tanh((3,)), B.Affine(jnp.array([0.1, 0.2, 0.3]), jnp.array([0.8, 0.9, 1.1]))])
+    perm = B.Permute(jnp.array([2, 0, 1]))
+    addc = B.AdditiveCondition(lambda c: 0.5 * jnp.sum(c) * jnp.arange(1.0, 4.0), (3,), (2,))
+    x = jnp.asarray(rng.normal(size=3))
+    c = jnp.asarray(rng.normal(size=2))
+
+    def chk(name, got, want):
+        nonlocal n
+        n += 1
+        lg, lw = jax.tree_util.tree_leaves(got), jax.tree_util.tree_leaves(want)
+        if len(lg) != len(lw) or any(np.shape(p) != np.shape(q) or not np.allclose(np.asarray(p), np.asarray(q), rtol=1e-9, atol=1e-12, equal_nan=True) for p, q in zip(lg, lw)):
+            fails.append(dict(what=f"{name}: {[np.asarray(v).tolist() for v in lg]} but the definition over the children gives {[np.asarray(v).tolist() for v in lw]}", case=dict(check=name)))
+
+    ch = B.Chain([a1, addc, a2, perm])
+    ref = x
+    ld = 0.0
+    for b in (a1, addc, a2, perm):
+        ref, l = b.transform_and_log_det(ref, c if b.cond_shape is not None else None)
+        ld = ld + l
+    chk("Chain.transform_and_log_det == fold of children in order", ch.transform_and_log_det(x, c), (ref, ld))
+    yb = ref
+    for b in (perm, a2, addc, a1):
+        yb = b.inverse(yb, c if b.cond_shape is not None else None)
+    chk("Chain.inverse == children undone in reverse order", ch.inverse(ref, c), yb)
+    chk("Chain[1:3] keeps the function of the slice", ch[1:3].transform(x, c), a2.transform(addc.transform(x, c)))
+    chk("Chain[0] is the first child", ch[0].transform(x), a1.transform(x))
+    nested = B.Chain([a1, B.Chain([addc, B.Chain([a2])]), perm])
+    chk("merge_chains never changes the function", nested.merge_chains().transform(x, c), nested.transform(x, c))
+    locs, scs = jnp.array([[0.1, 0.2, 0.3], [0.3, -0.4, 0.0], [1.0, 0.5, -0.5]]), jnp.array([[1.0, 2.0, 0.5], [0.5, 1.5, 1.0], [2.0, 0.7, 1.3]])
+    sc = B.Scan(eqx.filter_vmap(B.Affine)(locs, scs))
+    chn = B.Chain([B.Affine(l, s) for l, s in zip(locs, scs)])
+    chk("Scan == Chain of the unstacked layers (forward)", sc.transform_and_log_det(x), chn.transform_and_log_det(x))
+    chk("Scan == Chain of the unstacked layers (inverse)", sc.inverse_and_log_det(x), chn.inverse_and_log_det(x))
+    vm = B.Vmap(eqx.filter_vmap(B.Affine)(locs, scs), in_axes=eqx.if_array(0))
+    X = jnp.asarray(rng.normal(size=(3, 3)))
+    chk("Vmap (mapped parameters) applies slice by slice", vm.transform(X), jnp.stack([B.Affine(l, s).transform(xx) for l, s, xx in zip(locs, scs, X)]))
+    vb = B.Vmap(addc, axis_size=4, in_axes_condition=0)
+    Xb, Cb = jnp.asarray(rng.normal(size=(4, 3))), jnp.asarray(rng.normal(size=(4, 2)))
+    chk("Vmap (broadcast parameters, mapped condition)", vb.transform_and_log_det(Xb, Cb), (jnp.stack([addc.transform(xx, cc) for xx, cc in zip(Xb, Cb)]), jnp.zeros(())))
+    vb2 = B.Vmap(addc, axis_size=4)
+    chk("Vmap (broadcast condition)", vb2.transform(Xb, c), jnp.stack([addc.transform(xx, c) for xx in Xb]))
+    for axis in (0, 1, -1):
+        parts = [B.Affine(jnp.full((2, 3), 0.5), jnp.full((2, 3), 2.0)), B.Exp((2, 3))]
+        st = B.Stack(parts, axis=axis)
+        Xs = jnp.asarray(rng.normal(size=st.shape))
+        xs_ = [jnp.take(Xs, j, axis=axis) for j in range(2)]
+        chk(f"Stack(axis={axis}) applies each part to its slice", st.transform_and_log_det(Xs), (jnp.stack([p.transform(v) for p, v in zip(parts, xs_)], axis), sum(p.transform_and_log_det(v)[1] for p, v in zip(parts, xs_))))
+        pc = [B.Affine(jnp.full((2, 2), 0.5), jnp.full((2, 2), 2.0)), B.Exp((2, 2))]
+        sizes = [2, 2]
+        co = B.Concatenate(pc, axis=axis)
+        Xc = jnp.asarray(rng.normal(size=co.shape))
+        xc_ = jnp.split(Xc, [2], axis=axis)
+        chk(f"Concatenate(axis={axis}) applies each part to its slice", co.transform(Xc), jnp.concatenate([p.transform(v) for p, v in zip(pc, xc_)], axis))
+    x5 = jnp.asarray(rng.normal(size=5))
+    for idxs, sub in ((1, ()), (slice(1, 3), (2,)), (jnp.array([0, 3]), (2,)), (jnp.array([True, False, True, False, True]), (3,))):
+        pb = B.Partial(B.Exp(sub), idxs, (5,))
+        want = np.asarray(x5).copy()
+        want[np.asarray(idxs) if not isinstance(idxs, (int, slice)) else idxs] = np.exp(np.asarray(x5)[np.asarray(idxs) if not isinstance(idxs, (int, slice)) else idxs])
+        chk(f"Partial({type(idxs).__name__} index) changes only the indexed entries", pb.transform(x5), want)
+    inv = B.Invert(a2)
+    xi_ = a2.transform(x)
+    chk("Invert swaps the directions", (inv.transform(xi_), inv.inverse(x)), (a2.inverse(xi_), a2.transform(x)))
+    rs = B.Reshape(B.Affine(jnp.arange(6.0), jnp.arange(1.0, 7.0)), (2, 3))
+    X6 = jnp.asarray(rng.normal(size=(2, 3)))
+    chk("Reshape only re-presents the inputs", rs.transform(X6), (X6.ravel() * jnp.arange(1.0, 7.0) + jnp.arange(6.0)).reshape(2, 3))
+    emb = B.EmbedCondition(addc, lambda cc: cc[:2] * 2.0, (4,))
+    c4 = jnp.asarray(rng.normal(size=4))
+    chk("EmbedCondition passes the embedded condition", emb.transform(x, c4), addc.transform(x, c4[:2] * 2.0))
+    if count is not None:
+        count.append(n)
+    return fails
